@@ -118,6 +118,33 @@ func init() {
 		e.recordNondet(st, name, "blob", t, nil, n)
 		return st.newByteSlice(bytesOfTerm(t)), true
 	}
+	// BlobLike(name, n, candidates...): as Blob, but the harness names byte strings the solver is likely to make the blob
+	// EQUAL to (a digest, a key's address). Symbolically the blob stays unconstrained; a counterexample records which
+	// candidate (if any) the model made it equal to, and the native build then uses that candidate's NATIVE bytes (real
+	// Keccak digest, real key address) instead of the model's bytes, so that the counterexample replays.
+	exact[api+"BlobLike"] = func(e *Engine, st *State, fn *ssa.Function, args []Value, retTo *ssa.Call) (Value, bool) {
+		name := strArg(args[0])
+		n := int(args[1].(*Term).Int64())
+		if n == 0 {
+			return st.newByteSlice(nil), true
+		}
+		if e.pinned != nil {
+			return exact[api+"Bytes"](e, st, fn, args[:2], retTo)
+		}
+		t := st.fresh(fmt.Sprintf("%s{%d}", name, n), BV(8*n))
+		var cands []*Term
+		cs := args[2].(SliceV)
+		for i := 0; i < cs.Len; i++ {
+			c, ok := st.sliceGet(cs, i).(SliceV)
+			if !ok || c.Len != n {
+				cands = append(cands, nil)
+				continue
+			}
+			cands = append(cands, termOfBytes(st.sliceBytes(c)))
+		}
+		st.nondet = append(st.nondet, NondetRec{Name: name, Kind: "blob", Term: t, Many: cands, Shape: n})
+		return st.newByteSlice(bytesOfTerm(t)), true
+	}
 	exact[api+"Len"] = func(e *Engine, st *State, fn *ssa.Function, args []Value, retTo *ssa.Call) (Value, bool) {
 		name := strArg(args[0])
 		opts := args[1].(SliceV)
